@@ -118,6 +118,10 @@ def _xv_call(name, kind, version, kw):
                 fail = set(f.read().split("\n"))
     if fail and enc in fail:
         raise RuntimeError("xv-fail: " + enc)
+    unp = getattr(builtins, "_xv_unpick", None)
+    if unp and enc in unp:
+        # a result that cannot be pickled: the grow fails while *writing*
+        return (x for x in (1,))
     return _xv_value(kind, enc, version)
 '''
 
@@ -185,6 +189,20 @@ class CallLog:
 
     def encs(self, name=None):
         return [e for n, e in self.calls if name is None or n == name]
+
+
+class UnpicklableSet:
+    """settings for which the function returns an unpicklable result"""
+
+    def __init__(self, encs):
+        self.encs = set(encs)
+
+    def __enter__(self):
+        builtins._xv_unpick = self.encs
+        return self
+
+    def __exit__(self, *a):
+        del builtins._xv_unpick
 
 
 class FailSet:
